@@ -31,6 +31,7 @@ var LibraryPackages = []string{
 // Program is the loaded, type-checked program.
 type Program struct {
 	Mod   string
+	UseCHA bool
 	Dir   string
 	Fset  *token.FileSet
 	Pkgs  []*packages.Package // module packages only (non-test variants)
@@ -55,6 +56,8 @@ type Options struct {
 	Dir   string
 	Tags  string
 	GOARCH string
+	// CHA selects the class-hierarchy call graph (a superset of VTA) for reachability.
+	CHA bool
 }
 
 // Load loads ./... of dir.
@@ -95,7 +98,7 @@ func Load(opt Options) (*Program, error) {
 	if len(errs) > 0 {
 		return nil, fmt.Errorf("type-check errors in module:\n  %s", strings.Join(errs, "\n  "))
 	}
-	p := &Program{Mod: mod, Dir: opt.Dir, Fset: pkgs[0].Fset, All: pkgs}
+	p := &Program{Mod: mod, Dir: opt.Dir, Fset: pkgs[0].Fset, All: pkgs, UseCHA: opt.CHA}
 	have := map[string]bool{}
 	for _, pk := range pkgs {
 		if strings.HasPrefix(pk.PkgPath, mod) {
@@ -207,7 +210,11 @@ func (p *Program) PkgPathOf(f *ssa.Function) string {
 // CallGraph builds (once) the VTA call graph seeded by CHA.
 func (p *Program) CallGraph() *callgraph.Graph {
 	if p.cg == nil {
-		p.cg = vta.CallGraph(p.Funcs, cha.CallGraph(p.Prog))
+		if p.UseCHA {
+			p.cg = cha.CallGraph(p.Prog)
+		} else {
+			p.cg = vta.CallGraph(p.Funcs, cha.CallGraph(p.Prog))
+		}
 		p.buildEdges()
 	}
 	return p.cg
